@@ -51,6 +51,25 @@ func progCheck(t *testing.T, cfg progCheckCfg) {
 	replayKnown(t, col, cfg.prop)
 	rapidCheck(t, col, func(rt *rapid.T) {
 		pr := gen.Program(rt, cfg.opts())
+		if gen.Uniform(rt, "longnames", 10) == 0 {
+			// the same program with variable names that agree in their first 76
+			// characters: every name is still its own variable
+			isField := map[string]bool{}
+			for _, f := range pr.In.Fields {
+				isField[f.Name] = true
+			}
+			long := func(n string) string {
+				if isField[n] {
+					return n
+				}
+				return "a_rather_long_name_a_rather_long_name_a_rather_long_name_a_rather_long_name_" + n
+			}
+			pr.P = lang.Rename(pr.P, long)
+			for i := range pr.In.Vars {
+				pr.In.Vars[i].Name = long(pr.In.Vars[i].Name)
+			}
+			col.Class("names-sharing-a-long-prefix")
+		}
 		noOpt := rapid.Bool().Draw(rt, "noopt")
 		mode := rapid.SampledFrom([]string{"map", "struct", "ptr"}).Draw(rt, "objmode")
 		c, m := caseFromProg(cfg.prop, cfg.part, pr, noOpt, mode)
